@@ -52,6 +52,7 @@ type ltr struct {
 	lenOf  map[string]bool // free slices whose len() is read
 	single bool            // the abstract call returns one item (fetch by index), not a list
 	errVal string          // what `err != nil` is in the branch being translated ("true" / "false")
+	defs map[string]string // integer variables assigned before the loop (and package constants), as Coq expressions: inlined
 }
 
 func (l *ltr) fail(s string) string { l.bad = append(l.bad, s); return "(0)" }
@@ -62,6 +63,11 @@ func (l *ltr) ident(n string) string {
 	}
 	if l.locals[n] || n == l.elem || n == l.idx {
 		return coqName(n)
+	}
+	// a variable computed before the loop from other integers (or a package constant) is inlined, so that what the
+	// loop's bounds ARE is part of the translation
+	if d, ok := l.defs[n]; ok {
+		return d
 	}
 	l.free[n] = true
 	return coqName(n)
@@ -100,6 +106,10 @@ func (l *ltr) iexpr(e ast.Expr) string {
 				if len(x.Args) == 2 {
 					return "(N.min " + l.iexpr(x.Args[0]) + " " + l.iexpr(x.Args[1]) + ")"
 				}
+			case "max":
+				if len(x.Args) == 2 {
+					return "(N.max " + l.iexpr(x.Args[0]) + " " + l.iexpr(x.Args[1]) + ")"
+				}
 			case "len":
 				if len(x.Args) == 1 {
 					if a, ok := x.Args[0].(*ast.Ident); ok && a.Name == l.elem {
@@ -135,6 +145,35 @@ func (l *ltr) iexpr(e ast.Expr) string {
 		return n
 	}
 	return l.fail("integer expression " + text(e))
+}
+
+// pureInt: an integer expression built from literals, identifiers, + - *, min, len and integer conversions
+func pureInt(e ast.Expr) bool {
+	switch x := e.(type) {
+	case *ast.ParenExpr:
+		return pureInt(x.X)
+	case *ast.BasicLit:
+		return x.Kind == token.INT
+	case *ast.Ident:
+		return x.Name != "nil" && x.Name != "true" && x.Name != "false"
+	case *ast.BinaryExpr:
+		return (x.Op == token.ADD || x.Op == token.SUB || x.Op == token.MUL) && pureInt(x.X) && pureInt(x.Y)
+	case *ast.CallExpr:
+		if id, ok := x.Fun.(*ast.Ident); ok {
+			switch id.Name {
+			case "min", "max":
+				for _, a := range x.Args {
+					if !pureInt(a) {
+						return false
+					}
+				}
+				return len(x.Args) == 2
+			case "uint64", "int", "uint", "int64":
+				return len(x.Args) == 1 && pureInt(x.Args[0])
+			}
+		}
+	}
+	return false
 }
 
 func sanitize(s string) string {
@@ -445,7 +484,8 @@ func assignedOuter(body *ast.BlockStmt) (vars []string, lists map[string]bool, e
 func translateLoops(root string, parse func(string) *ast.File) string {
 	var b strings.Builder
 	b.WriteString("(* GENERATED by harness/translators/golite (loops.go) from the Go source of the repository; do not edit. *)\n")
-	b.WriteString("From Coq Require Import List NArith Bool.\nImport ListNotations.\nOpen Scope N_scope.\nOpen Scope list_scope.\nOpen Scope bool_scope.\n\n")
+	b.WriteString("From Coq Require Import List NArith Bool.\nFrom Coq Require String.\nImport ListNotations.\nOpen Scope N_scope.\nOpen Scope list_scope.\nOpen Scope bool_scope.\n\n")
+	var inputs []string
 	for _, tg := range loopTargets {
 		f := parse(tg.file)
 		var fd *ast.FuncDecl
@@ -474,7 +514,124 @@ func translateLoops(root string, parse func(string) *ast.File) string {
 			fmt.Fprintf(&b, "(* UNSUPPORTED %s: no loop found in %s %s *)\nDefinition loop_%s_unsupported : False -> False := fun x => x.\n\n", tg.ident, tg.file, tg.name, tg.ident)
 			continue
 		}
-		l := &ltr{state: map[string]string{}, isList: map[string]bool{}, locals: map[string]bool{}, free: map[string]bool{}, lenOf: map[string]bool{}}
+		l := &ltr{state: map[string]string{}, isList: map[string]bool{}, locals: map[string]bool{}, free: map[string]bool{}, lenOf: map[string]bool{},
+			defs: map[string]string{}}
+		// package-level integer constants of the file
+		for _, d := range f.Decls {
+			if gd, ok := d.(*ast.GenDecl); ok && (gd.Tok == token.CONST || gd.Tok == token.VAR) {
+				for _, sp := range gd.Specs {
+					if vs, ok := sp.(*ast.ValueSpec); ok && len(vs.Names) == len(vs.Values) {
+						for i, n := range vs.Names {
+							if pureInt(vs.Values[i]) {
+								l.defs[n.Name] = l.iexpr(vs.Values[i])
+							}
+						}
+					}
+				}
+			}
+		}
+		// the integer computations of the function before the loop, in order (sequential semantics): x := e, x = e,
+		// and `if c { x = e; ... }` (a conditional update).  Anything else that writes an integer variable the loop
+		// reads makes the translation unsupported, rather than silently treating the variable as a parameter.
+		clobbered := map[string]bool{}
+		var pre func(st ast.Stmt, top bool)
+		pre = func(st ast.Stmt, top bool) {
+			switch x := st.(type) {
+			case *ast.AssignStmt:
+				for i, lh := range x.Lhs {
+					id, ok := lh.(*ast.Ident)
+					if !ok || id.Name == "_" || id.Name == "err" {
+						continue
+					}
+					if top && len(x.Lhs) == 1 && len(x.Rhs) == 1 && (x.Tok == token.DEFINE || x.Tok == token.ASSIGN) && pureInt(x.Rhs[0]) {
+						l.defs[id.Name] = l.iexpr(x.Rhs[0])
+						delete(clobbered, id.Name)
+						continue
+					}
+					_ = i
+					if x.Tok == token.DEFINE && top {
+						// assigned from a call / other expression: a genuine input of the loop (a Section variable)
+						delete(l.defs, id.Name)
+						delete(clobbered, id.Name)
+						continue
+					}
+					delete(l.defs, id.Name)
+					clobbered[id.Name] = true
+				}
+			case *ast.IfStmt:
+				simple := top && x.Init == nil && x.Else == nil
+				if simple {
+					for _, b := range x.Body.List {
+						as, ok := b.(*ast.AssignStmt)
+						if !ok || len(as.Lhs) != 1 || len(as.Rhs) != 1 || as.Tok != token.ASSIGN || !pureInt(as.Rhs[0]) {
+							simple = false
+							break
+						}
+						if _, ok := as.Lhs[0].(*ast.Ident); !ok {
+							simple = false
+							break
+						}
+					}
+				}
+				// an `if` whose body only returns (an early exit before the loop) does not write anything
+				onlyReturns := true
+				ast.Inspect(x.Body, func(n ast.Node) bool {
+					switch n.(type) {
+					case *ast.AssignStmt, *ast.IncDecStmt:
+						onlyReturns = false
+					}
+					return true
+				})
+				if onlyReturns && x.Else == nil {
+					return
+				}
+				if simple {
+					c := l.cond(x.Cond)
+					for _, b := range x.Body.List {
+						as := b.(*ast.AssignStmt)
+						id := as.Lhs[0].(*ast.Ident)
+						prev, ok := l.defs[id.Name]
+						if !ok {
+							prev = coqName(id.Name)
+							l.free[id.Name] = true
+						}
+						l.defs[id.Name] = "(if " + c + " then " + l.iexpr(as.Rhs[0]) + " else " + prev + ")"
+					}
+					return
+				}
+				ast.Inspect(x, func(n ast.Node) bool {
+					if as, ok := n.(*ast.AssignStmt); ok {
+						pre(as, false)
+					}
+					if inc, ok := n.(*ast.IncDecStmt); ok {
+						if id, ok := inc.X.(*ast.Ident); ok {
+							delete(l.defs, id.Name)
+							clobbered[id.Name] = true
+						}
+					}
+					return true
+				})
+			case *ast.IncDecStmt:
+				if id, ok := x.X.(*ast.Ident); ok {
+					delete(l.defs, id.Name)
+					clobbered[id.Name] = true
+				}
+			case *ast.ForStmt, *ast.RangeStmt, *ast.SwitchStmt, *ast.BlockStmt:
+				ast.Inspect(x, func(n ast.Node) bool {
+					if as, ok := n.(*ast.AssignStmt); ok {
+						pre(as, false)
+					}
+					return true
+				})
+			}
+		}
+		for _, st := range fd.Body.List {
+			if st == loop {
+				break
+			}
+			pre(st, true)
+		}
+		defer func() {}()
 		var body *ast.BlockStmt
 		shape := ""
 		var counted *ast.ForStmt
@@ -576,6 +733,11 @@ func translateLoops(root string, parse func(string) *ast.File) string {
 			def = fmt.Sprintf("  Definition loop_start : N := %s.\n  Fixpoint loop (fuel : nat) (%s : N) (st : %s) : option (%s + %s) :=\n    match fuel with\n    | O => None\n    | S fuel' =>\n      let %s := st in\n      if %s%s%s\n      then %s\n      else Some (inl st)\n    end.\n",
 				start, coqName(ivar), stTypes(), stTypes(), stTypes(), entry(), coqName(ivar), cmp, bound, bodyE)
 		}
+		for n := range clobbered {
+			if isFree, ok := l.free[n]; ok && isFree {
+				l.bad = append(l.bad, "the loop reads "+n+", which is written before the loop in a way outside the fragment")
+			}
+		}
 		if len(l.bad) > 0 {
 			fmt.Fprintf(&b, "(* UNSUPPORTED %s (%s %s): %s *)\nDefinition loop_%s_unsupported : False -> False := fun x => x.\n\n", tg.ident, tg.file, tg.name, strings.Join(l.bad, "; "), tg.ident)
 			continue
@@ -624,7 +786,16 @@ func translateLoops(root string, parse func(string) *ast.File) string {
 		if shape == "B" {
 			fmt.Fprintf(&b, "Notation loop_%s_start := L_%s.loop_start.\n", tg.ident, tg.ident)
 		}
+		// the loop's inputs BY NAME, so that a lemma cannot silently apply to a different variable in the same position
+		var qs []string
+		for _, n := range frees {
+			qs = append(qs, "\""+n+"\"")
+		}
+		inputs = append(inputs, fmt.Sprintf("  Definition loop_%s_inputs : list string := [%s].", tg.ident, strings.Join(qs, "; ")))
 		fmt.Fprintf(&b, "(* state: %s *)\n\n", strings.Join(l.fields, ", "))
 	}
+	b.WriteString("(* the loops' inputs BY NAME, in the order of their Section variables *)\nModule LoopInputs.\n  Import String.\n  Open Scope string_scope.\n")
+	b.WriteString(strings.Join(inputs, "\n"))
+	b.WriteString("\nEnd LoopInputs.\n")
 	return b.String()
 }
